@@ -343,6 +343,47 @@ func c13Case(e *c13env, batch []op, r *ev.Run) (what, mut string, mlog writelog.
 		return fmt.Sprintf("after honest apply the root reads back %s (err=%v), expected %s", got, rerr, c), "served", wl
 	}
 	r.Add("transitions", 1)
+	// 4. the version is finalized; further applies into it: whatever Apply answers, a success means
+	// that the announced root is present and reads back the log's result, a failure that it is absent.
+	if !root2.Hash.Equal(&e.root.Hash) {
+		if err := e.dst.Finalize([]node.Root{root2}); err == nil {
+			for i, m := range ms {
+				mc := applyLogRef(base, m)
+				if mc.Equal(c) {
+					continue
+				}
+				// the mutant's own, correct root: a different state transition announced for the finalized version
+				rootM := root2
+				rootM.Hash = kv.CanonicalRoot(mc)
+				if rootM.Hash.Equal(&e.root.Hash) {
+					continue
+				}
+				_, err := rc.Apply(kv.Ctx, e.root, rootM, cloneLog(m))
+				r.Add("transitions", 1)
+				has := e.dst.HasRoot(rootM)
+				switch {
+				case err == nil && !has:
+					return fmt.Sprintf("apply of log %s into the already finalized version announced root %s and reported success, but that root is not in the database", logString(m), rootM.Hash), "finalized:" + names[i], m
+				case err == nil:
+					tt := mkvs.NewWithRoot(nil, e.dst, rootM)
+					got, _, rerr := kv.TreeContents(tt)
+					tt.Close()
+					if rerr != nil || !got.Equal(mc) {
+						return fmt.Sprintf("apply of log %s into the already finalized version was accepted but root %s reads back %s (err=%v)", logString(m), rootM.Hash, got, rerr), "finalized:" + names[i], m
+					}
+				case has:
+					return fmt.Sprintf("apply of log %s into the already finalized version failed (%v) but its root %s appeared", logString(m), err, rootM.Hash), "finalized:" + names[i], m
+				}
+				if i > 6 {
+					break // a handful of different transitions per case is enough
+				}
+			}
+		}
+		// version 2 is finalized now: the next case needs a fresh destination
+		if err := e.freshDst(); err != nil {
+			r.HarnessError("fresh dst: %v", err)
+		}
+	}
 	return "", "", nil
 }
 
